@@ -2,14 +2,17 @@
 (***************************************************************************)
 (* Behaviour generator for KeyLife.tla.                                    *)
 (*                                                                         *)
-(* Mode "cover": the history is hidden from the fingerprint (VIEW), the    *)
-(*   last step (with the database before it) is not.  TLC then visits      *)
-(*   every reachable TRANSITION (state x Verify request) within the bounds *)
-(*   once, and each is emitted together with one complete behaviour that   *)
-(*   leads from the initial state (empty database) to it.  The real key    *)
-(*   ring keeps no state but its database, which the replay compares after *)
-(*   every step, so agreement on every transition carries over to every    *)
-(*   behaviour by induction.                                               *)
+(* Mode "cover": the history is hidden from the fingerprint (VIEW) and the *)
+(*   number of calls is not bounded (the state space is finite without     *)
+(*   it).  TLC then visits every reachable state within the bounds and     *)
+(*   takes every TRANSITION (state x Verify request) exactly once; the     *)
+(*   Verify action itself prints, for each, one complete behaviour that    *)
+(*   leads from the initial state (empty database) to the state and ends   *)
+(*   with that call.  The per-call clauses are checked on every transition *)
+(*   (action property EveryCallOK), the state clauses on every state.      *)
+(*   The real key ring keeps no state but its database, which the replay   *)
+(*   compares after every step, so agreement on every transition carries   *)
+(*   over to every behaviour by induction.                                 *)
 (* Mode "paths": no VIEW - every behaviour within (tighter) bounds is a    *)
 (*   state of its own and is emitted when it is complete (MaxReq calls).   *)
 (*   Interleavings of events that commute are generated in one order only: *)
@@ -25,6 +28,7 @@ VARIABLE ph    \* "paths" only: 0 free, 3 just ticked, 1 / 2 the direct / notary
 
 gvars == <<vars, ph>>
 
+\* values for the cfg files
 BothOrders == {<<"d", "n">>, <<"n", "d">>}
 DirectFirst == {<<"d", "n">>}
 NotaryFirst == {<<"n", "d">>}
@@ -32,45 +36,48 @@ NAny == {"any"}
 NBoth == {"any", "match"}
 SGood == {"good"}
 SBoth == {"good", "bad"}
+RBoth == BOOLEAN
+RStrict == {TRUE}
+TS01 == 0..1
+TS02 == 0..2
 TS03 == 0..3
 TS04 == 0..4
-TS02 == 0..2
 
 Free == Mode = "cover"
 
+\* ----------------------------------------------------------------- emission
+\* compact: a table is a sequence (by key ID) of <<vu, exp>>; an environment step is <<name>> or
+\* <<name, fetcher>>; a call is <<"verify", kid, ts, strict, sig, res, con, t, du, nu, tr, sn, dbb, dba>>
+Tab(t) == [k \in DOMAIN t |-> <<t[k].vu, t[k].exp>>]
+StepOut(s) ==
+    IF s.a = "verify"
+    THEN <<s.a, s.rq.kid, s.rq.ts, s.rq.strict, s.rq.sig, s.res, s.con, s.t, s.du, s.nu,
+           Tab(s.tr), Tab(s.sn), Tab(s.dbb), Tab(s.dba)>>
+    ELSE IF s.f = "-" THEN <<s.a>> ELSE <<s.a, s.f>>
+
+EmitHist(h) == PrintT(ToJson([nk |-> NK, v |-> V, order |-> order, nmode |-> nmode,
+                              steps |-> [i \in DOMAIN h |-> StepOut(h[i])]]))
+
+LastIsVerify == hist # <<>> /\ hist[Len(hist)].a = "verify"
+\* "paths": one record per complete behaviour
+Emit == (~Free /\ LastIsVerify /\ nreq = MaxReq) => EmitHist(hist)
+
+\* --------------------------------------------------------------- behaviours
 GInit == Init /\ ph = 0
 
+GVerify(rq) == IF Free THEN Call(rq) ELSE Verify(rq)
+
 GNext ==
-  \/ /\ nreq < MaxReq
+  \/ /\ (Free \/ nreq < MaxReq)
      /\ \/ (Free \/ ph \in {0, 3}) /\ Tick /\ ph' = (IF Free THEN 0 ELSE 3)
         \/ (Free \/ ph \in {0, 3}) /\ (Rotate \/ Renew) /\ ph' = 0
         \/ (Free \/ ph = 0) /\ Sync /\ ph' = 0
         \/ (Free \/ ph \in {0, 3}) /\ (Outage("d") \/ Recover("d")) /\ ph' = (IF Free THEN 0 ELSE 1)
         \/ (Free \/ ph \in {0, 3, 1}) /\ (Outage("n") \/ Recover("n")) /\ ph' = (IF Free THEN 0 ELSE 2)
-  \/ (\E rq \in Requests : Verify(rq)) /\ ph' = 0
+  \/ (\E rq \in Requests : GVerify(rq) /\ (Free => EmitHist(hist'))) /\ ph' = 0
 
 GSpec == GInit /\ [][GNext]_gvars
 
-NoStep == EnvStep("-", "-")
-LastIsVerify == hist # <<>> /\ hist[Len(hist)].a = "verify"
-LastStep == hist[Len(hist)]
-
-\* "cover": everything but the history, plus the last step
-View == <<now, cur, ovu, oexp, snap, dirUp, notUp, order, nmode, db, nreq, ph,
-          IF LastIsVerify THEN LastStep ELSE NoStep>>
-
-\* ----------------------------------------------------------------- emission
-Tab(t) == IF t = <<>> THEN <<>> ELSE [k \in DOMAIN t |-> <<t[k].vu, t[k].exp>>]
-StepOut(s) ==
-    IF s.a = "verify"
-    THEN [a |-> s.a, f |-> s.f, kid |-> s.rq.kid, ts |-> s.rq.ts, strict |-> s.rq.strict, sig |-> s.rq.sig,
-          res |-> s.res, con |-> s.con, t |-> s.t, du |-> s.du, nu |-> s.nu,
-          tr |-> Tab(s.tr), sn |-> Tab(s.sn), dbb |-> Tab(s.dbb), dba |-> Tab(s.dba)]
-    ELSE [a |-> s.a, f |-> s.f, kid |-> 0, ts |-> NoTS, strict |-> FALSE, sig |-> "-",
-          res |-> "-", con |-> <<>>, t |-> s.t, du |-> s.du, nu |-> s.nu,
-          tr |-> <<>>, sn |-> <<>>, dbb |-> <<>>, dba |-> <<>>]
-
-Emit == (LastIsVerify /\ (Free \/ nreq = MaxReq)) =>
-    PrintT(ToJson([nk |-> NK, v |-> V, order |-> order, nmode |-> nmode,
-                   steps |-> [i \in DOMAIN hist |-> StepOut(hist[i])]]))
+\* "cover": everything but the history
+View == <<now, cur, ovu, oexp, snap, dirUp, notUp, order, nmode, db, known>>
 =============================================================================
